@@ -778,7 +778,8 @@ func (vm *vm) popTryFrame() {
 }
 
 func (vm *vm) restoreStacks(iterLen, refLen uint32) (ex *Exception) {
-	// Restore other stacks
+	// Restore other stacks, also when a return() call is interrupted (that panic goes past handleThrow)
+	defer vm.dropStacks(iterLen, refLen)
 	iterTail := vm.iterStack[iterLen:]
 	for i := len(iterTail) - 1; i >= 0; i-- {
 		if iter := iterTail[i].iter; iter != nil {
@@ -791,12 +792,6 @@ func (vm *vm) restoreStacks(iterLen, refLen uint32) (ex *Exception) {
 		}
 		iterTail[i] = iterStackItem{}
 	}
-	vm.iterStack = vm.iterStack[:iterLen]
-	refTail := vm.refStack[refLen:]
-	for i := range refTail {
-		refTail[i] = nil
-	}
-	vm.refStack = vm.refStack[:refLen]
 	return
 }
 
